@@ -354,6 +354,21 @@ class ExecMixin:
         return False
 
     def st_With(self, st, s):
+        """the one form in scope: `with open(p) as f: x = f.read()`  ==  x = read_file(p)  (assumed external, may raise
+        FileNotFoundError)"""
+        if len(s.items) == 1 and isinstance(s.items[0].context_expr, ast.Call) and isinstance(s.items[0].context_expr.func, ast.Name) \
+                and s.items[0].context_expr.func.id == "open" and isinstance(s.items[0].optional_vars, ast.Name) and len(s.body) == 1 \
+                and isinstance(s.body[0], ast.Assign) and isinstance(s.body[0].value, ast.Call) \
+                and isinstance(s.body[0].value.func, ast.Attribute) and s.body[0].value.func.attr == "read" \
+                and isinstance(s.body[0].value.func.value, ast.Name) and s.body[0].value.func.value.id == s.items[0].optional_vars.id:
+            c = self.contracts.get("ext:read_file")
+            if c is None:
+                raise OutsideSubset("with open(...) without an assumed contract for read_file")
+            path = self.ev(st, s.items[0].context_expr.args[0])
+            val = self.apply_contract(st, c, [path], {}, "ext:read_file")
+            for t in s.body[0].targets:
+                self.assign(st, t, val)
+            return
         raise OutsideSubset("with statement")
 
     def st_While(self, st, s):
